@@ -37,12 +37,13 @@ RULE = ("Stratified by target (GULP, excel, eam_adp, excel_eam, excel_eam_fs, fu
         "the reference. Non-trivial = >= 2 functions in the output with a non-constant one, or an undeclared "
         "dipole/quadrupole pair; distinct = canonical JSON.")
 ASSUMPTIONS = [
+    "rows are taken at the float the property's own row formula gives (k*delpot; i*step; i*cutoff/(nr-1)); a row that sits EXACTLY on a range boundary is compared (the marker decides its side), a row within 64 ulp of a boundary without being on it is not (nothing can be said about which side a last-bit difference puts it on)",
     "xlsx workbooks are compared on decoded cell contents (zip metadata carries the wall clock)",
     "funcfl pair potentials are generated non-negative (the format stores sqrt(phi*r))",
     "Excel pair columns are accepted under either species order of the label",
 ]
 REQUIRED = {"target:GULP": 20, "target:excel": 15, "target:eam_adp": 20, "target:excel_eam": 15,
-            "target:excel_eam_fs": 15, "target:funcfl": 20, "adp:undeclared_multipole": 10, "rewrite:2_writes": 2}
+            "target:excel_eam_fs": 15, "target:funcfl": 20, "adp:undeclared_multipole": 10, "rewrite:2_writes": 2, "break_on_row": 8}
 XL = ("e", 16)
 
 
@@ -80,6 +81,29 @@ def _funcfl_case(draw):
 
 
 @st.composite
+def _node_case(draw):
+    """break points exactly on rows i*cutoff/(nr-1) (GULP, spreadsheets) or i*step (ADP)"""
+    target = draw(st.sampled_from(["GULP", "GULP", "GULP", "excel", "excel_eam", "excel_eam_fs", "eam_adp"]))
+    if target in ("GULP", "excel"):
+        m = draw(_pair_case(target))
+        cutoff, nr = m["cutoff"], max(4, m["nr"])
+        if target == "GULP":
+            nr = draw(st.sampled_from([nr, 41, 61, 101, 127]))
+        m["nr"] = nr
+        for ent in m["pair"]:
+            ks = draw(st.lists(st.integers(1, nr - 1), min_size=2, max_size=3, unique=True))
+            ent[2] = draw(gen.node_break_potdef([float(k) * cutoff / float(nr - 1) for k in ks]))
+        m["pair"] = [list(e) for e in m["pair"]]
+        m["node_breaks"] = True
+        return m
+    m = draw(_eam_case(target))
+    if m["grid"]["nr"] < 3 or m["grid"]["nrho"] < 3:
+        m["grid"]["nr"] += 3
+        m["grid"]["nrho"] += 3
+    return eamtab.with_node_breaks(draw, m, "i*step" if target == "eam_adp" else "i*total/(n-1)")
+
+
+@st.composite
 def _rewrite(draw):
     """GULP / ADP / funcfl written again from the same objects after one function was re-parametrised"""
     target = draw(st.sampled_from(["GULP", "eam_adp", "funcfl"]))
@@ -107,7 +131,7 @@ def strategy(tier):
 def strata(tier):
     return [("GULP", _pair_case("GULP"), 3), ("excel", _pair_case("excel"), 2), ("eam_adp", _eam_case("eam_adp"), 3),
             ("excel_eam", _eam_case("excel_eam"), 2), ("excel_eam_fs", _eam_case("excel_eam_fs"), 2),
-            ("funcfl", _funcfl_case(), 3), ("rewrite", _rewrite(), 2)]
+            ("funcfl", _funcfl_case(), 3), ("rewrite", _rewrite(), 2), ("break_on_row", _node_case(), 3)]
 
 
 def budget(tier):
@@ -138,8 +162,8 @@ def _check_gulp(m, cls):
     want = []
     for a, b, pd in m["pair"]:
         pd = pairtab.for_route(pd, rk)
-        want.append((a, b, pd, [None if eamtab.near_boundary(ref, pd, i * step) else eamtab.ref_value(ref, pd, i * step)
-                                for i in range(nr)]))
+        want.append((a, b, pd, [None if eamtab.near_boundary(ref, pd, i * cutoff / float(nr - 1)) else
+                                eamtab.ref_value(ref, pd, i * cutoff / float(nr - 1)) for i in range(nr)]))
     if route in ("potable", "main"):
         out = _potable(ctx, route, m["target"])
     else:
@@ -171,8 +195,8 @@ def _check_gulp(m, cls):
             v.append(("gulp:rows", "%d rows, expected nr=%d\n%s" % (len(blk["rows"]), nr, ctx)))
             continue
         for i, (e, r) in enumerate(blk["rows"]):
-            if abs(r - i * step) > 1.0000001e-10 + 1e-12 * cutoff:
-                v.append(("gulp:separation", "row %d separation %r, expected %r\n%s" % (i, r, i * step, ctx)))
+            if abs(r - i * cutoff / float(nr - 1)) > 1.0000001e-10 + 1e-12 * cutoff:
+                v.append(("gulp:separation", "row %d separation %r, expected %r\n%s" % (i, r, i * cutoff / float(nr - 1), ctx)))
                 break
             if vals[i] is not None and not compare.close(("f", 10), e, vals[i]):
                 v.append(("gulp:energy", "%s-%s row %d (r=%r): %r, model %r\n%s" % (a, b, i, r, e, vals[i].v, ctx)))
@@ -181,18 +205,20 @@ def _check_gulp(m, cls):
 
 
 # ---- Excel ----------------------------------------------------------------
-def _col_check(v, bucket, sheet, name, col, pd, ref, n, step, ctx):
+def _col_check(v, bucket, sheet, name, col, pd, ref, n, total, ctx):
+    """rows of a spreadsheet sit at i*total/(n-1), total = cutoff or cutoff_rho (the property's own formula)"""
     for i in compare.sample_rows(n):
-        if eamtab.near_boundary(ref, pd, i * step):
+        x = i * total / float(n - 1)
+        if eamtab.near_boundary(ref, pd, x):
             continue
-        w = eamtab.ref_value(ref, pd, i * step)
+        w = eamtab.ref_value(ref, pd, x)
         got = col[i]
         if got is None or libroute.realnum(got) is None or not compare.close(XL, float(got), w):
-            v.append((bucket, "sheet %s column %s row %d (x=%r): %r, model %r\n%s" % (sheet, name, i, i * step, got, w.v, ctx)))
+            v.append((bucket, "sheet %s column %s row %d (x=%r): %r, model %r\n%s" % (sheet, name, i, x, got, w.v, ctx)))
             return
 
 
-def _sheet(wb, name, first, labels, n, step, v, ctx):
+def _sheet(wb, name, first, labels, n, total, v, ctx):
     if name not in wb:
         v.append(("excel:sheet_missing", "no sheet %r in %r" % (name, sorted(wb))))
         return None
@@ -207,19 +233,19 @@ def _sheet(wb, name, first, labels, n, step, v, ctx):
     cols = dict((h, [row[c] for row in sh["rows"]]) for c, h in enumerate(hdr))
     for i in range(n):
         x = cols[first][i]
-        if x is None or abs(x - i * step) > 1e-12 * max(1.0, abs(i * step)):
-            v.append(("excel:first_column", "sheet %s row %d %s=%r, expected %r\n%s" % (name, i, first, x, i * step, ctx)))
+        want = i * total / float(n - 1)
+        if x is None or abs(x - want) > 1e-12 * max(1.0, abs(want)):
+            v.append(("excel:first_column", "sheet %s row %d %s=%r, expected %r\n%s" % (name, i, first, x, want, ctx)))
             return None
     return cols
 
 
 def _check_excel_pair_sheet(wb, m, rk, cutoff, nr, v, ctx):
     ref = model.Ref(m["env"])
-    step = cutoff / float(nr - 1)
     labels = {}
     for a, b, pd in m["pair"]:
         labels[frozenset((a, b))] = (a, b, pairtab.for_route(pd, rk))
-    cols = _sheet(wb, "Pair", "r", labels, nr, step, v, ctx)
+    cols = _sheet(wb, "Pair", "r", labels, nr, cutoff, v, ctx)
     if cols is None:
         return
     for name, col in cols.items():
@@ -230,7 +256,7 @@ def _check_excel_pair_sheet(wb, m, rk, cutoff, nr, v, ctx):
         if len(parts) != 2 or key not in labels:
             v.append(("excel:unknown_column", "Pair column %r does not name a potential of the model\n%s" % (name, ctx)))
             continue
-        _col_check(v, "excel:pair_value", "Pair", name, col, labels[key][2], ref, nr, step, ctx)
+        _col_check(v, "excel:pair_value", "Pair", name, col, labels[key][2], ref, nr, cutoff, ctx)
 
 
 def _check_excel_pair(m, cls):
@@ -284,25 +310,25 @@ def _check_excel_eam(m, cls):
     mm = dict(m, pair=[[a, b, pd] for a, b, pd in m["pair"]])
     # only pairs between any species are listed as given (foreign species included)
     _check_excel_pair_sheet(wb, mm, rk, g["cutoff"], nr, v, ctx)
-    emb = _sheet(wb, "EAM-Embed", "rho", els, nrho, drho, v, ctx)
+    emb = _sheet(wb, "EAM-Embed", "rho", els, nrho, g["cutoff_rho"], v, ctx)
     if emb is not None:
         if set(emb) - {"rho"} != set(els):
             v.append(("excel:embed_columns", "EAM-Embed columns %r, elements %r\n%s" % (sorted(emb), els, ctx)))
         else:
             for e in els:
-                _col_check(v, "excel:embed_value", "EAM-Embed", e, emb[e], lk["embed"].get(e), ref, nrho, drho, ctx)
+                _col_check(v, "excel:embed_value", "EAM-Embed", e, emb[e], lk["embed"].get(e), ref, nrho, g["cutoff_rho"], ctx)
     if fs:
         names = ["%s->%s" % (a, b) for a in els for b in els]
     else:
         names = els
-    dens = _sheet(wb, "EAM-Density", "r", names, nr, dr, v, ctx)
+    dens = _sheet(wb, "EAM-Density", "r", names, nr, g["cutoff"], v, ctx)
     if dens is not None:
         if set(dens) - {"r"} != set(names):
             v.append(("excel:density_columns", "EAM-Density columns %r, expected %r\n%s" % (sorted(dens), names, ctx)))
         else:
             for nme in names:
                 pd = lk["density_fs"].get(tuple(nme.split("->"))) if fs else lk["density"].get(nme)
-                _col_check(v, "excel:density_value", "EAM-Density", nme, dens[nme], pd, ref, nr, dr, ctx)
+                _col_check(v, "excel:density_value", "EAM-Density", nme, dens[nme], pd, ref, nr, g["cutoff"], ctx)
     return v
 
 
@@ -405,7 +431,7 @@ def _check_funcfl(m, cls):
 
 def check_case(m):
     target = m["target"]
-    cls = ["target:" + target, "route:" + m["route"]]
+    cls = ["target:" + target, "route:" + m["route"]] + (["break_on_row"] if m.get("node_breaks") else [])
     fn = {"GULP": _check_gulp, "excel": _check_excel_pair, "eam_adp": _check_adp, "excel_eam": _check_excel_eam,
           "excel_eam_fs": _check_excel_eam, "funcfl": _check_funcfl}[target]
     if target in ("excel", "excel_eam", "excel_eam_fs"):
